@@ -254,7 +254,9 @@ func (g *functionGenerator) getValue(i ssa.Value) valueWrap {
 	case *ssa.Function:
 		fn_name, _ := wir.GetFnMangleName(v, g.prog.Manifest.MainPkg)
 
-		if v.Parent() != nil {
+		if v.Parent() != nil || (v.Pkg == nil && strings.HasSuffix(v.Name(), "$thunk")) {
+			// anonymous functions and method-expression thunks are not package members:
+			// generate them where they are first referenced
 			if g.module.FindFunc(fn_name) == nil {
 				g.module.AddFunc(newFunctionGenerator(g.prog, g.module, g.tLib).genFunction(v))
 			}
@@ -936,7 +938,9 @@ func (g *functionGenerator) genBuiltin(name string, pos token.Pos, args []wir.Va
 		}
 
 	case token.K_ssa_wrapnilchk:
-		insts = args[0].EmitPushNoRetain()
+		// the result is stored in a register that is released at function exit: it needs its own
+		// reference (without it every call of a (*T).M wrapper frees the receiver's block)
+		insts = args[0].EmitPush()
 		ret_type = args[0].Type()
 
 	case token.K_delete, token.K_删除:
